@@ -292,4 +292,36 @@ Proof.
     exact Hok.
 Qed.
 
+
+(** the converse: what a successful crossing check says about every block *)
+Lemma chunks_ok_inv : 0 < c_chunk cr -> forall fuel a,
+  s_trials S0 - a < fuel -> chunks_ok fuel S0 s cr a = true ->
+  forall b, a <= b -> (b - a) mod c_chunk cr = 0 -> b < s_trials S0 ->
+  block_ok (b + c_chunk cr <=? s_trials S0) (firstn (Nat.min (c_chunk cr) (s_trials S0 - b)) (skipn b cs)).
+Proof.
+  intros Hch. induction fuel as [|fuel IH]; intros a Hfuel Hok b Hab Hmod Hb; [lia|].
+  cbn [chunks_ok] in Hok. destruct (s_trials S0 <=? a) eqn:E; [apply Nat.leb_le in E; lia|]. apply Nat.leb_gt in E.
+  apply andb_prop in Hok. destruct Hok as [Hok Hrec]. apply andb_prop in Hok. destruct Hok as [Hcnt Hmem].
+  destruct (Nat.eq_dec b a) as [-> | Hne].
+  - set (len := Nat.min (c_chunk cr) (s_trials S0 - a)).
+    assert (Hb' : Nat.min (a + c_chunk cr) (s_trials S0) = a + len) by (unfold len; lia).
+    rewrite Hb' in Hcnt, Hmem. split.
+    + intros cm Hcm. rewrite forallb_forall in Hcnt. specialize (Hcnt cm Hcm).
+      rewrite count_combo_block in Hcnt by (unfold len; lia).
+      destruct (a + c_chunk cr <=? s_trials S0); [apply Nat.eqb_eq | apply Nat.leb_le]; exact Hcnt.
+    + intros combo Hin. apply In_nth with (d := []) in Hin. destruct Hin as [i [Hi Ei]].
+      rewrite firstn_length, skipn_length in Hi.
+      rewrite nth_firstn_lt in Ei by (unfold len; lia).
+      rewrite nth_skipn in Ei. subst combo.
+      rewrite forallb_forall in Hmem. specialize (Hmem (a + i) ltac:(apply in_seq; unfold len in *; lia)).
+      apply existsb_exists in Hmem. destruct Hmem as [cm [Hcm Heq]]. exists cm. split; [exact Hcm|].
+      rewrite Hcombo in Heq by lia. rewrite combo_eqb_map_some in Heq. apply nlist_eqb_eq. exact Heq.
+  - assert (Hge : a + c_chunk cr <= b).
+    { assert (Hpos : 0 < b - a) by lia. apply Nat.mod_divides in Hmod; [|lia]. destruct Hmod as [k Hk].
+      destruct k; [lia|]. nia. }
+    apply (IH (a + c_chunk cr)); [lia | exact Hrec | exact Hge | | exact Hb].
+    replace (b - a) with ((b - (a + c_chunk cr)) + 1 * c_chunk cr) in Hmod by lia.
+    rewrite Nat.mod_add in Hmod by lia. exact Hmod.
+Qed.
+
 End Chunks.
